@@ -1,6 +1,6 @@
 """./check <id> quick|thorough | --replay <file>   — orchestrates one property check (DESIGN.md §6)."""
 import importlib, json, os, sys, time, traceback
-from . import common, gen_tie, gen_tie_c
+from . import common, gen_tie, gen_tie_c, tie_audit
 from .common import Ctx, Infra
 
 ASSUMPTIONS = [
@@ -71,6 +71,20 @@ def main(argv):
                 print(tb)
                 ctx.diff("harness-exception", {"exception": "%s: %s" % (type(e).__name__, str(e)[:500])},
                          tb[-1500:], "the harness completes without exception on the unchanged tree")
+        # model coverage: the theorems must be about model functions this run tied to the code (DESIGN.md §2.5)
+        coverage = None
+        if not replay_path:
+            tie_mods = ["Qv.Proofs.GenEq." + g for g in sorted({e["group"] for e in gen_tie._relevant(prop)})]
+            if prop in gen_tie_c.PROPS:
+                tie_mods.append("Qv.Proofs.GenEqC")
+            if not audit["ok"]:
+                tie_mods = []          # a tie module may not build: audit the correspondence side only
+            ta = tie_audit.audit(prop, common.OPS_USED, [t["name"] for t in tie["theorems"] if t.get("axioms") is not None]
+                                 if tie_mods else [], tie_mods)
+            coverage = ta["report"]
+            if not ta["ok"]:
+                audit["ok"] = False
+                audit["problems"] += ta["problems"]
     except Infra as e:
         print("INFRA:", e); return 2
     except Exception:
@@ -117,7 +131,7 @@ def main(argv):
         common.write_evidence(prop, tier, seed, ctx, audit, "proof", getattr(mod, "RULE", ""),
                               len(new), ASSUMPTIONS + getattr(mod, "ASSUMPTIONS", []),
                               extra=dict(known_findings_reproduced=sorted(seen_known),
-                                         generated_from_source=tie["functions"]))
+                                         generated_from_source=tie["functions"], model_coverage=coverage))
     print("%s %s seed=%d: %d evaluations, %d distinct non-trivial, %d theorems (%d discharged), "
           "%d correspondence differences, %d violations, %.1fs" % (
               prop, tier, seed, ctx.evaluations, len(ctx.distinct), audit["obligations"], audit["discharged"],
